@@ -4,6 +4,7 @@ package storeh
 
 import (
 	"context"
+	"strings"
 	"sync"
 
 	"github.com/ipfs/go-datastore"
@@ -27,10 +28,16 @@ type RecDS struct {
 	FailFrom, FailN int
 	attempts        int
 	Failed          int
+	// FailHdrFrom/FailHdrN: commits that carry header puts (flushes) with index in
+	// [FailHdrFrom, FailHdrFrom+FailHdrN) fail (transient datastore write failures)
+	FailHdrFrom, FailHdrN int
+	hdrCommits            int
 	// OnGet, when set, is called (without the lock held) before a Get returns; it may block.
 	OnGet func(key string, found bool)
 	// OnCommit, when set, is called before a batch commit is applied; it may block.
 	OnCommit func()
+	// OnWrite, when set, is called (without the lock held) before any write is applied; it may block.
+	OnWrite func()
 }
 
 var ErrInjected = errInjected{}
@@ -39,7 +46,9 @@ type errInjected struct{}
 
 func (errInjected) Error() string { return "injected datastore write failure" }
 
-func NewRecDS() *RecDS { return &RecDS{inner: datastore.NewMapDatastore(), FailFrom: -1} }
+func NewRecDS() *RecDS {
+	return &RecDS{inner: datastore.NewMapDatastore(), FailFrom: -1, FailHdrFrom: -1}
+}
 
 // Rebuild returns a fresh datastore holding the first k log entries.
 func (d *RecDS) Rebuild(k int) *RecDS {
@@ -68,10 +77,29 @@ func (d *RecDS) attempt() error {
 }
 
 func (d *RecDS) apply(ops []WOp) error {
+	if hook := d.OnWrite; hook != nil {
+		hook()
+	}
 	d.mu.Lock()
 	defer d.mu.Unlock()
 	if err := d.attempt(); err != nil {
 		return err
+	}
+	if d.FailHdrFrom >= 0 && len(ops) > 1 {
+		flush := false
+		for _, w := range ops {
+			if !w.Del && !strings.HasSuffix(w.Key, "/head") && !strings.HasSuffix(w.Key, "/tail") {
+				flush = true
+			}
+		}
+		if flush {
+			i := d.hdrCommits
+			d.hdrCommits++
+			if i >= d.FailHdrFrom && i < d.FailHdrFrom+d.FailHdrN {
+				d.Failed++
+				return ErrInjected
+			}
+		}
 	}
 	ctx := context.Background()
 	for _, w := range ops {
